@@ -169,7 +169,6 @@ func ruleOPT1(c *Ctx) {
 	}
 }
 
-
 // flagsLiteral evaluates jsonopts.Struct{Flags: jsonflags.Flags{Presence: c1, Values: c2}}.
 // extra reports whether any other field of Struct is set.
 func flagsLiteral(info *types.Info, e ast.Expr) (pres, vals uint64, extra, ok bool) {
@@ -375,7 +374,7 @@ func ruleOPT3(c *Ctx) {
 	structT := p.NamedType("jsonopts", "Struct")
 
 	// --- Join: type switch cases
-	joinTyped := map[string]flagFieldPair{} // by case type string
+	joinTyped := map[string]flagFieldPair{}  // by case type string
 	structCase := map[uint64][2]*types.Var{} // flag -> (dst field, src field)
 	var structGuard uint64
 	var joinTS *ast.TypeSwitchStmt
